@@ -191,6 +191,10 @@ func PodName(pod *corev1.Pod) string {
 
 // GetAppTypePrefix formats an appTypePrefix for the given resource kind
 func GetAppTypePrefix(kind string) string {
+	if kind == NoRefAppName {
+		// the app type GetAppType reports for the prefix of pods without owner reference
+		return NoRefAppTypePrefix
+	}
 	lower := strings.ToLower(kind)
 	if lower == "statefulset" || lower == "statefulsets" {
 		return StatefulsetPrefixKey
